@@ -5,6 +5,60 @@ size, exponent, scalar and matrix.
 -/
 import OdlModel.Lemmas.OpAlgebra
 import OdlModel.Model.OpLeaves
+import OdlModel.Lemmas.CRat
+import Mathlib.Tactic.Linarith
+import Mathlib.Data.Complex.Basic
+namespace OdlModel.CRat
+
+theorem normSq_ne_zero {a : CRat} (h : a ≠ 0) : a.normSq ≠ 0 := by
+  intro hz
+  apply h
+  unfold normSq at hz
+  have h1 : a.re = 0 := by nlinarith [mul_self_nonneg a.re, mul_self_nonneg a.im]
+  have h2 : a.im = 0 := by nlinarith [mul_self_nonneg a.re, mul_self_nonneg a.im]
+  ext <;> simp [h1, h2]
+
+instance : Inv CRat := ⟨CRat.inv⟩
+
+/-- The Gaussian rationals with EXACTLY the driver's operations (`Model/CRat.lean`: `+`, `*`,
+unary and binary `-`, `/` = multiplication by `conj / normSq`, the numerals) form a field; the
+`[Field K]` theorems of C04 therefore apply to the type the driver computes with. -/
+instance instField : Field CRat :=
+  { CRat.instCommRing with
+    inv := CRat.inv
+    sub := fun x y => CRat.instSub.sub x y
+    sub_eq_add_neg := by
+      intro a b
+      show CRat.instSub.sub a b = a + -b
+      ext
+      · show a.re - b.re = a.re + -b.re; ring
+      · show a.im - b.im = a.im + -b.im; ring
+    div := fun x y => x / y
+    div_eq_mul_inv := fun _ _ => rfl
+    exists_pair_ne := ⟨0, 1, by intro h; have := congrArg CRat.re h; simp at this⟩
+    mul_inv_cancel := by
+      intro a ha
+      have hd := normSq_ne_zero ha
+      show a * a.inv = 1
+      unfold normSq at hd
+      ext
+      · simp only [mul_re, inv, normSq, one_re]
+        rw [show a.re * (a.re / (a.re * a.re + a.im * a.im)) - a.im * (-a.im / (a.re * a.re + a.im * a.im))
+          = (a.re * a.re + a.im * a.im) / (a.re * a.re + a.im * a.im) by ring]
+        exact div_self hd
+      · simp only [mul_im, inv, normSq, one_im]; ring
+    inv_zero := by
+      show CRat.inv 0 = 0
+      ext <;> simp [inv, normSq]
+    nnqsmul := _
+    nnqsmul_def := fun _ _ => rfl
+    qsmul := _
+    qsmul_def := fun _ _ => rfl
+    nnratCast_def := fun _ => rfl
+    ratCast_def := fun _ => rfl }
+
+end OdlModel.CRat
+
 open OdlModel.OpAlgebra
 namespace OdlModel.OpAlgebra
 variable {K : Type} [Field K] [DecidableEq K]
@@ -70,4 +124,161 @@ theorem zoo_envOK (specs : Nat → LeafSpec K) (e : Expr K) (h : ZooExpr specs e
   | bin o a b iha ihb => exact ⟨iha h.1, ihb h.2⟩
   | sc o a s re ih => exact ⟨ih h, fun _ => ⟨trivial, trivial⟩⟩
   | vc o a v ih => exact ih h
+/-! ### Round 4: the full pool (inner / linf / l2sq / repart / impart / scalef / powf) -/
+
+/-- the scalars `re` and `im` commute with (for `ℂ`, and for the driver's Gaussian rationals:
+the real ones) -/
+def CStruct.commutes (cs : CStruct K) : K → Prop :=
+  fun s => ∀ z, cs.re (s * z) = s * cs.re z ∧ cs.im (s * z) = s * cs.im z
+
+/-- `re` and `im` are additive -/
+def CStruct.AddOK (cs : CStruct K) : Prop :=
+  ∀ a b, cs.re (a + b) = cs.re a + cs.re b ∧ cs.im (a + b) = cs.im a + cs.im b
+
+/-- every scalar marked `real` (`isinstance(s, numbers.Real)`) satisfies `P` -/
+def MarksIn (P : K → Prop) : Expr K → Prop
+  | .leaf _ => True
+  | .neg a => MarksIn P a
+  | .pow a _ => MarksIn P a
+  | .bin _ a b => MarksIn P a ∧ MarksIn P b
+  | .sc _ a s re => MarksIn P a ∧ (re = true → P s)
+  | .vc _ a _ => MarksIn P a
+
+/-- every scalar marked `real` is in `R`, with its inverse -/
+def RealMarks (R : K → Prop) (e : Expr K) : Prop := MarksIn (fun s => R s ∧ R (1 / s)) e
+
+omit [Field K] [DecidableEq K] in
+theorem marksIn_mono {P Q : K → Prop} (hpq : ∀ s, P s → Q s) (e : Expr K) (h : MarksIn P e) :
+    MarksIn Q e := by
+  induction e with
+  | leaf i => trivial
+  | neg a ih => exact ih h
+  | pow a n ih => exact ih h
+  | bin o a b iha ihb => exact ⟨iha h.1, ihb h.2⟩
+  | sc o a s re ih => exact ⟨ih h.1, fun hr => hpq _ (h.2 hr)⟩
+  | vc o a v ih => exact ih h
+
+omit [DecidableEq K] in
+theorem isLin_mono {R : K → Prop} {f : Vec K → Vec K} (h : IsLin allK f) : IsLin R f :=
+  ⟨fun s _ x => h.1 s trivial x, h.2⟩
+
+omit [DecidableEq K] in
+theorem dotConj_smul (cj : K → K) (s : K) (x : Vec K) (r : List K) (k : Nat) :
+    dotConj cj (fun j => s * x j) r k = s * dotConj cj x r k := by
+  induction r generalizing k with
+  | nil => simp [dotConj]
+  | cons c cs ih => simp only [dotConj, ih]; ring
+
+omit [DecidableEq K] in
+theorem dotConj_add (cj : K → K) (x y : Vec K) (r : List K) (k : Nat) :
+    dotConj cj (fun j => x j + y j) r k = dotConj cj x r k + dotConj cj y r k := by
+  induction r generalizing k with
+  | nil => simp [dotConj]
+  | cons c cs ih => simp only [dotConj, ih]; ring
+
+/-- the linearity class of each leaf map of the full pool -/
+theorem leafSpecC_class (cs : CStruct K) (hadd : cs.AddOK) (s : LeafSpecC K) :
+    (s.cls = .all → IsLin allK (s.map cs)) ∧
+    (s.cls = .realOnly → IsLin cs.commutes (s.map cs)) := by
+  cases s with
+  | base b =>
+    refine ⟨fun h => ?_, fun h => ?_⟩
+    · simp only [LeafSpecC.cls] at h
+      split_ifs at h with hl
+      exact (leafSpec_ok 0 b).1 hl
+    · simp only [LeafSpecC.cls] at h
+      split_ifs at h
+  | inner n y fn =>
+    refine ⟨fun _ => ⟨fun t _ x => ?_, fun x y' => ?_⟩, fun h => by simp [LeafSpecC.cls] at h⟩
+    · funext j; simp only [LeafSpecC.map, dotConj_smul]
+    · funext j; simp only [LeafSpecC.map, dotConj_add]
+  | l2sq n => exact ⟨fun h => by simp [LeafSpecC.cls] at h, fun h => by simp [LeafSpecC.cls] at h⟩
+  | repart n =>
+    refine ⟨fun h => by simp [LeafSpecC.cls] at h, fun _ => ⟨fun t ht x => ?_, fun x y => ?_⟩⟩
+    · funext j; simp only [LeafSpecC.map]; split_ifs
+      · exact (ht (x j)).1
+      · ring
+    · funext j; simp only [LeafSpecC.map]; split_ifs
+      · exact (hadd (x j) (y j)).1
+      · ring
+  | impart n =>
+    refine ⟨fun h => by simp [LeafSpecC.cls] at h, fun _ => ⟨fun t ht x => ?_, fun x y => ?_⟩⟩
+    · funext j; simp only [LeafSpecC.map]; split_ifs
+      · exact (ht (x j)).2
+      · ring
+    · funext j; simp only [LeafSpecC.map]; split_ifs
+      · exact (hadd (x j) (y j)).2
+      · ring
+  | scalef c =>
+    refine ⟨fun _ => ⟨fun t _ x => ?_, fun x y => ?_⟩, fun h => by simp [LeafSpecC.cls] at h⟩ <;>
+      funext j <;> simp only [LeafSpecC.map] <;> ring
+  | powf p =>
+    refine ⟨fun h => ?_, fun h => by simp only [LeafSpecC.cls] at h; split_ifs at h⟩
+    simp only [LeafSpecC.cls] at h
+    split_ifs at h with hp
+    subst hp
+    refine ⟨fun t _ x => ?_, fun x y => ?_⟩ <;>
+      funext j <;> simp only [LeafSpecC.map, powK] <;> ring
+
+/-- a leaf the library flags `is_linear` is in class `all` or `realOnly`; a `Functional`
+leaf returns a scalar -/
+theorem leafSpecC_ok (cs : CStruct K) (hadd : cs.AddOK) (id : Nat) (s : LeafSpecC K) :
+    ((s.info id).lin = true → IsLin cs.commutes (s.map cs)) ∧
+    ((s.info id).fn = true → ConstFam (s.map cs)) := by
+  have hc := leafSpecC_class cs hadd s
+  cases s with
+  | base b =>
+    exact ⟨fun h => isLin_mono ((leafSpec_ok id b).1 h), (leafSpec_ok id b).2⟩
+  | inner n y fn => exact ⟨fun _ => isLin_mono (hc.1 rfl), fun _ x j => rfl⟩
+  | l2sq n => exact ⟨fun h => by simp [LeafSpecC.info] at h, fun _ x j => rfl⟩
+  | repart n => exact ⟨fun _ => hc.2 rfl, fun h => by simp [LeafSpecC.info] at h⟩
+  | impart n => exact ⟨fun _ => hc.2 rfl, fun h => by simp [LeafSpecC.info] at h⟩
+  | scalef c => exact ⟨fun _ => isLin_mono (hc.1 rfl), fun h => by simp [LeafSpecC.info] at h⟩
+  | powf p =>
+    refine ⟨fun h => ?_, fun h => by simp [LeafSpecC.info] at h⟩
+    simp only [LeafSpecC.info, decide_eq_true_eq] at h
+    exact isLin_mono (hc.1 (by simp [LeafSpecC.cls, h]))
+
+theorem zooC_envOK (cs : CStruct K) (hadd : cs.AddOK) (specs : Nat → LeafSpecC K) (e : Expr K)
+    (h : ZooExprC specs e) (hre : RealMarks cs.commutes e) :
+    EnvOK cs.commutes (zooEnvC cs specs) e := by
+  induction e with
+  | leaf i =>
+    have := leafSpecC_ok cs hadd i.id (specs i.id)
+    simp only [ZooExprC] at h
+    rw [← h] at this
+    exact this
+  | neg a ih => exact ih h hre
+  | pow a n ih => exact ih h hre
+  | bin o a b iha ihb => exact ⟨iha h.1 hre.1, ihb h.2 hre.2⟩
+  | sc o a s re ih => exact ⟨ih h hre.1, hre.2⟩
+  | vc o a v ih => exact ih h hre
+/-! ### the driver's own instance -/
+
+theorem cratStruct_addOK : cratStruct.AddOK := fun a b =>
+  ⟨by ext <;> simp [cratStruct], by ext <;> simp [cratStruct]⟩
+
+theorem cratStruct_commutes_of_real (s : CRat) (hs : s.im = 0) : cratStruct.commutes s := fun z =>
+  ⟨by ext <;> simp [cratStruct, hs], by ext <;> simp [cratStruct, hs]⟩
+
+theorem crat_inv_real (s : CRat) (hs : s.im = 0) : (1 / s).im = 0 := by
+  show ((1 : CRat) * s.inv).im = 0
+  simp [CRat.inv, hs]
+
+theorem realMarks_crat (e : Expr CRat) (h : MarksIn (fun s => s.im = 0) e) :
+    RealMarks cratStruct.commutes e :=
+  marksIn_mono (fun s hs => ⟨cratStruct_commutes_of_real s hs,
+    cratStruct_commutes_of_real _ (crat_inv_real s hs)⟩) e h
+
 end OdlModel.OpAlgebra
+
+namespace OdlModel.C04
+open OdlModel.OpAlgebra
+/-- the complex structure of `ℂ` (for the non-vacuity examples of Props/C04) -/
+noncomputable def csC : CStruct ℂ := ⟨fun z => ⟨z.re, -z.im⟩, fun z => (z.re : ℂ), fun z => (z.im : ℂ)⟩
+
+theorem csC_addOK : csC.AddOK := fun a b => ⟨by simp [csC], by simp [csC]⟩
+
+theorem csC_commutes_of_real (s : ℂ) (hs : s.im = 0) : csC.commutes s := fun z =>
+  ⟨by apply Complex.ext <;> simp [csC, hs], by apply Complex.ext <;> simp [csC, hs]⟩
+end OdlModel.C04
